@@ -331,6 +331,53 @@ pub fn run_handshake(body: &[Sexp]) -> String {
   // the crate is built without its `timer` feature: delay asks this function for its timers (a zero delay is due at once)
   crate::timed::install_timer();
   let pool = FuturesThreadPoolScheduler::new().unwrap();
+  if kind.starts_with("iter_") {
+    // a pulling source (from_iter asks is_finished() between items) above the operator, a slow subscriber on the pool: the source
+    // asks while a delivery is running on another thread.  Everything it produced arrives, in order, and the completion.
+    // One worker: the pool runs its tasks in the order in which they were scheduled (a pool with several workers may run the
+    // completion's task before an item's: no order is claimed there).
+    let pool = FuturesThreadPoolScheduler::builder().pool_size(1).create().unwrap();
+    for _ in 0..rounds {
+      let got: Arc<Mutex<Vec<i32>>> = Arc::default();
+      let g2 = got.clone();
+      let done = Arc::new(AtomicBool::new(false));
+      let d2 = done.clone();
+      let cb = move |v: i32| {
+        std::thread::sleep(Duration::from_millis(15));
+        g2.lock().unwrap().push(v);
+      };
+      let paced = (0..5).map(|v| {
+        std::thread::sleep(Duration::from_millis(10));
+        v
+      });
+      let keep: Box<dyn std::any::Any> = match kind.as_str() {
+        "iter_observe_on" => {
+          Box::new(observable::from_iter(paced).observe_on_threads(pool.clone()).on_complete(move || d2.store(true, Ordering::SeqCst)).subscribe(cb))
+        }
+        "iter_delay" => Box::new(
+          observable::from_iter(paced)
+            .delay_threads(Duration::from_millis(0), pool.clone())
+            .on_complete(move || d2.store(true, Ordering::SeqCst))
+            .subscribe(cb),
+        ),
+        k => panic!("bad handshake kind {k}"),
+      };
+      let t0 = std::time::Instant::now();
+      while !(got.lock().unwrap().len() == 5 && done.load(Ordering::SeqCst)) && t0.elapsed() < Duration::from_secs(3) {
+        std::thread::sleep(Duration::from_millis(2));
+      }
+      std::mem::forget(keep);
+      let g = got.lock().unwrap().clone();
+      if g != vec![0, 1, 2, 3, 4] || !done.load(Ordering::SeqCst) {
+        return format!(
+          "from_iter(0..5) above the operator on a one-worker thread pool with a slow subscriber: delivered {:?}, completed: {}",
+          g,
+          done.load(Ordering::SeqCst)
+        );
+      }
+    }
+    return "ok".into();
+  }
   for _ in 0..rounds {
     let subject: SubjectThreads<i32, ()> = SubjectThreads::default();
     let (returned_tx, returned_rx) = std::sync::mpsc::channel::<()>();
